@@ -11,14 +11,26 @@ from . import common as K
 COLL = "rpyc.lib.colls.RefCountingColl"
 
 
-def box_remote_returns(ctx, g):
-    """return nodes of _box whose label folds to LABEL_REMOTE_REF"""
+PACKAGES = {}
+
+
+def box_remote_returns(ctx, g, opaque=None):
+    """return nodes of _box whose (label, value) package - written in the return or bound to a local on the way - has a label
+    folding to LABEL_REMOTE_REF; returns of anything that is not such a literal package are collected in `opaque`"""
     RR = ctx.const("rpyc.core.consts", "LABEL_REMOTE_REF")
+    rd = Q.ReachingDefs(g)
     out = []
     for n in g.live:
-        if n.kind == "stmt" and isinstance(n.ast, ast.Return) and isinstance(n.ast.value, ast.Tuple) \
-                and len(n.ast.value.elts) == 2 and ctx.try_fold(n.ast.value.elts[0]) == RR:
-            out.append(n)
+        if n.kind == "stmt" and isinstance(n.ast, ast.Return) and n.ast.value is not None:
+            v = n.ast.value
+            if not isinstance(v, ast.Tuple):
+                v = K.resolve_expr(rd, n, v)
+            if isinstance(v, ast.Tuple) and len(v.elts) == 2 and ctx.try_fold(v.elts[0]) is not None:
+                if ctx.try_fold(v.elts[0]) == RR:
+                    PACKAGES[(id(g), n.id)] = v
+                    out.append(n)
+            elif opaque is not None:
+                opaque.append(n)
     return out
 
 
@@ -42,7 +54,13 @@ def run(ctx, rep):
     g = ctx.cfg(fb)
     rep.analysed(fb, g)
     prm = A.params(fb.node)
-    rets = box_remote_returns(ctx, g)
+    opaque_rets = []
+    rets = box_remote_returns(ctx, g, opaque_rets)
+    rep.ob("R10.1", "_box: every package returned is built on the path that returns it", not opaque_rets,
+           "each return is a literal (label, value) pair" if not opaque_rets else
+           "`%s` hands out a package that was built earlier (a memo): the reference inside is sent again without being counted at the "
+           "owner, while the peer counts every occurrence - the object is released while the peer still holds it"
+           % A.norm(opaque_rets[0].ast), ctx.loc(opaque_rets[0]) if opaque_rets else fb.loc)
     rep.floor("R10.1", "_box paths returning a remote reference", len(rets), 1)
     adds = [n for n in g.live if n.kind == "stmt" and n.ast is not None and A.find_calls(n.ast, "self._local_objects.add")]
     ids = {n.id for n in adds}
@@ -55,7 +73,7 @@ def run(ctx, rep):
                "exactly one self._local_objects.add(...) on every path to `%s`" % A.norm(r.ast) if ok else
                "a reference is sent with %s registrations at the owner: %s" % (sorted(at), "the object can be collected while "
                "the peer holds a proxy" if 0 in at else "the object leaks (count never returns to zero)"), ctx.loc(r))
-        sent = r.ast.value.elts[1]
+        sent = PACKAGES.get((id(g), r.id), r.ast.value).elts[1]
         for a in adds:
             c = A.find_calls(a.ast, "self._local_objects.add")[0]
             ok2 = len(c.args) == 2 and A.src(c.args[0]) == A.src(sent) and A.src(c.args[1]) == prm[1]
